@@ -2,6 +2,7 @@
   C11 — crypt_gensalt encodes the documented cost for every count.
 -/
 import Xc.Lemmas.Gensalt
+import Xc.Lemmas.Accept2
 namespace Xc.C11
 open Xc
 
@@ -79,5 +80,101 @@ theorem C11_bsdi (count : Nat) (rb : Bytes) (n osize : Nat) (s : Bytes) (e : Nat
   simp only [] at h ⊢
   cases h
   refine ⟨rfl, ?_, ?_⟩ <;> (repeat' split) <;> omega
+
+/-! ### the cost that `crypt` APPLIES to a generated setting (end to end: writer, then the method's parser) -/
+
+/-- yescrypt: for cost `c = count` (or 5 when `count = 0`) the KDF runs with `N = 2^(c+9), r = 8` below 3 and `N = 2^(c+7), r = 32`
+    from 3 on, `p = 1`, default flags — decoded back from the generated text by `yescrypt_r`'s own parser -/
+theorem C11_yescrypt_applied (count : Nat) (rb : Bytes) (n osize : Nat) (S : Bytes) (e : Nat)
+    (h : gensaltYescrypt count rb n osize = .ok S e) (D : Digests) (hD : D.WF) (p : Bytes) :
+    1 ≤ dfl count 5 ∧ dfl count 5 ≤ 11 ∧
+    (yesParamsOf (dfl count 5)).N = (if dfl count 5 < 3 then 2 ^ (dfl count 5 + 9) else 2 ^ (dfl count 5 + 7)) ∧
+    (yesParamsOf (dfl count 5)).r = (if dfl count 5 < 3 then 8 else 32) ∧
+    cryptYescrypt D p S = (match D.yescrypt (yesParamsOf (dfl count 5)) (padTo rb (min n 64)) p with
+      | none => .error .EINVAL
+      | some hd => .ok (S ++ 36 :: encode64 hd)) := by
+  obtain ⟨c1, c2, _, _⟩ := gensaltYescrypt_shape h
+  refine ⟨c1, c2, ?_, ?_, accept_yescrypt count rb n osize S e h D hD p⟩
+  · unfold yesParamsOf yesRN; split <;> rfl
+  · unfold yesParamsOf yesRN; split <;> rfl
+
+/-- gost-yescrypt: the same parameters reach the inner KDF -/
+theorem C11_gost_applied (count : Nat) (rb : Bytes) (n osize : Nat) (S : Bytes) (e : Nat)
+    (h : gensaltGost count rb n osize = .ok S e) (D : Digests) (hD : D.WF) (p : Bytes) :
+    1 ≤ dfl count 5 ∧ dfl count 5 ≤ 11 ∧
+    cryptGost D p S = (match D.yescrypt (yesParamsOf (dfl count 5)) (padTo rb (min n 64)) p with
+      | none => .error .EINVAL
+      | some hd => .ok (S ++ 36 :: encode64 (D.gostOuter p S hd))) := by
+  obtain ⟨c1, c2, _, _⟩ := gensaltGost_shape h
+  exact ⟨c1, c2, accept_gost count rb n osize S e h D hD p⟩
+
+/-- scrypt: cost `c = count` (or 7) in 6..11 gives `N = 2^(c+7), r = 32, p = 1` -/
+theorem C11_scrypt_applied (count : Nat) (rb : Bytes) (n osize : Nat) (S : Bytes) (e : Nat)
+    (h : gensaltScrypt count rb n osize = .ok S e) (D : Digests) (hD : D.WF) (p : Bytes) :
+    6 ≤ dfl count 7 ∧ dfl count 7 ≤ 11 ∧
+    cryptScrypt D p S = (match D.yescrypt { flags := 0, N := 2 ^ (dfl count 7 + 7), r := 32, p := 1, t := 0, g := 0, NROM := 0 }
+        (encode64 (padTo rb (min n 64))) p with
+      | none => .error .EINVAL
+      | some hd => .ok (S ++ 36 :: encode64 hd)) := by
+  obtain ⟨c1, c2, _, _⟩ := gensaltScrypt_shape h
+  exact ⟨c1, c2, accept_scrypt count rb n osize S e h D hD p⟩
+
+/-- the logarithmic-cost writers of the yescrypt family reject out-of-range counts (given a buffer that passes their size test) -/
+theorem C11_log_reject_yescrypt (count : Nat) (rb : Bytes) (n osize : Nat) (ho : 192 ≤ osize) (h : 11 < count) :
+    gensaltYescrypt count rb n osize = .err .EINVAL ∧ gensaltGost count rb n osize = .err .EINVAL ∧
+    gensaltScrypt count rb n osize = .err .EINVAL := by
+  have hb : ∀ k, k ≤ 64 → base64Len k ≤ 86 := fun k hk => by unfold base64Len; omega
+  have hg : Gen.CRYPT_GENSALT_OUTPUT_SIZE = 192 := rfl
+  have hmin : min n 64 ≤ 64 := by omega
+  have hbl := hb (min n 64) hmin
+  have hy : ∀ o, 191 ≤ o → gensaltYescrypt count rb (min n 64) o = .err .EINVAL := by
+    intro o ho'
+    unfold gensaltYescrypt
+    dsimp only
+    have hmm : min (min n 64) 64 = min n 64 := by omega
+    rw [hmm, if_neg (by rw [hg]; omega), if_pos (Or.inl h)]
+  refine ⟨?_, ?_, ?_⟩
+  · unfold gensaltYescrypt
+    dsimp only
+    rw [if_neg (by rw [hg]; omega), if_pos (Or.inl h)]
+  · unfold gensaltGost
+    dsimp only
+    rw [if_neg (by rw [hg]; omega), hy (osize - 1) (by omega)]
+  · unfold gensaltScrypt
+    dsimp only
+    rw [if_neg (by rw [hg]; omega), if_pos (Or.inr (Or.inl h))]
+
+/-- scrypt also rejects the costs 1..5 -/
+theorem C11_log_reject_scrypt_low (count : Nat) (rb : Bytes) (n osize : Nat) (ho : 192 ≤ osize) (h : 0 < count ∧ count < 6) :
+    gensaltScrypt count rb n osize = .err .EINVAL := by
+  have hg : Gen.CRYPT_GENSALT_OUTPUT_SIZE = 192 := rfl
+  have hbl : base64Len (min n 64) ≤ 86 := by unfold base64Len; omega
+  unfold gensaltScrypt
+  dsimp only
+  rw [if_neg (by rw [hg]; omega), if_pos (Or.inl h)]
+
+/-- sunmd5: crypt applies 4096 + the printed count, which lies in [4096 + 32768, 2^32) -/
+theorem C11_sunmd5_applied (count : Nat) (rb : Bytes) (n osize : Nat) (S : Bytes) (e : Nat)
+    (h : gensaltSunmd5 count rb n osize = .ok S e) (D : Digests) (p : Bytes) :
+    cryptSunmd5 D p S = .ok (S ++ [36] ++ permEncode Gen.perm_sunmd5 (D.sunmd5 p S (4096 + sunmd5Count count rb))) :=
+  accept_sunmd5 count rb n osize S e h D p
+
+/-- sha256crypt / sha512crypt: the rounds the parser reads back from a generated setting are the documented clamp of `count` -/
+theorem C11_sha_applied (count : Nat) (rb : Bytes) (n osize : Nat) (S : Bytes) (e : Nat) :
+    (gensaltSha256 count rb n osize = .ok S e → ∃ P, parseSha Gen.sha256_salt_prefix Gen.sha256_rounds_prefix Gen.SHA256_ROUNDS_DEFAULT
+        Gen.SHA256_ROUNDS_MIN Gen.SHA256_ROUNDS_MAX Gen.SHA256_SALT_LEN_MAX S = .ok P ∧
+        P.rounds = shaClamp Gen.SHA256_ROUNDS_DEFAULT Gen.SHA256_ROUNDS_MIN Gen.SHA256_ROUNDS_MAX count) ∧
+    (gensaltSha512 count rb n osize = .ok S e → ∃ P, parseSha Gen.sha512_salt_prefix Gen.sha512_rounds_prefix Gen.SHA512_ROUNDS_DEFAULT
+        Gen.SHA512_ROUNDS_MIN Gen.SHA512_ROUNDS_MAX Gen.SHA512_SALT_LEN_MAX S = .ok P ∧
+        P.rounds = shaClamp Gen.SHA512_ROUNDS_DEFAULT Gen.SHA512_ROUNDS_MIN Gen.SHA512_ROUNDS_MAX count) := by
+  constructor
+  · intro h
+    obtain ⟨P, hP, _, hr⟩ := accept_sha_gen 53 Gen.sha256_salt_prefix Gen.sha256_rounds_prefix _ _ _ _ count rb n osize S e (by decide) (by decide)
+      (by decide) (by decide) (by decide) (by decide) (by decide) h (fun _ => [])
+    exact ⟨P, hP, hr⟩
+  · intro h
+    obtain ⟨P, hP, _, hr⟩ := accept_sha_gen 54 Gen.sha512_salt_prefix Gen.sha512_rounds_prefix _ _ _ _ count rb n osize S e (by decide) (by decide)
+      (by decide) (by decide) (by decide) (by decide) (by decide) h (fun _ => [])
+    exact ⟨P, hP, hr⟩
 
 end Xc.C11
